@@ -280,6 +280,51 @@ func (c *ctx) errorHandedOn(call *ast.CallExpr) bool {
 		}
 		return true
 	}
+	// `v, err := call(...)` directly followed by `if err != nil { return ..., err }`
+	if as, ok := p.(*ast.AssignStmt); ok && len(as.Rhs) == 1 {
+		info := fc.pkg.TypesInfo
+		var errObj types.Object
+		for _, l := range as.Lhs {
+			if id, ok := l.(*ast.Ident); ok && id.Name != "_" {
+				if t := info.TypeOf(id); t != nil && t.String() == "error" {
+					errObj = astx.ObjOf(info, id)
+				}
+			}
+		}
+		if blk, ok := fc.par[as].(*ast.BlockStmt); ok && errObj != nil {
+			for i, st := range blk.List {
+				if st != ast.Stmt(as) || i+1 >= len(blk.List) {
+					continue
+				}
+				is, ok := blk.List[i+1].(*ast.IfStmt)
+				if !ok || is.Init != nil || !astx.Terminates(is.Body) {
+					return false
+				}
+				be, isBin := astx.Unparen(is.Cond).(*ast.BinaryExpr)
+				if !isBin || be.Op != token.NEQ {
+					return false
+				}
+				var e ast.Expr
+				switch {
+				case astx.IsNil(info, be.Y):
+					e = be.X
+				case astx.IsNil(info, be.X):
+					e = be.Y
+				default:
+					return false
+				}
+				if astx.IdentObj(info, e) != errObj {
+					return false
+				}
+				for _, st := range is.Body.List {
+					if ret, ok := st.(*ast.ReturnStmt); ok && len(ret.Results) > 0 && astx.IsNil(info, ret.Results[len(ret.Results)-1]) {
+						return false
+					}
+				}
+				return true
+			}
+		}
+	}
 	return false
 }
 
